@@ -57,6 +57,18 @@ def run_shard(desc):
                     steps.extend(gen.ORDER_PRE)  # re-register every kind (same behaviours)
                     steps.append({"op": "parse", "text": text})
                 cases.append((first, t, text, (k, fk), threaded))
+    # long programs (> 64 KiB of text) through the one-shot `execute` entry point, fault in the middle
+    long_cases = []
+    if si % 4 == 0:
+        for fk in ("err", "panic"):
+            for pad in (70000, 140000):
+                text = "t(1) + " + " " * pad + "gt(2) lop t(3) + 0"
+                cid += 1
+                first = len(steps)
+                steps.append({"op": "ctx", "id": cid, "vars": gen.ORDER_VARS, "fns": gen.ORDER_FNS})
+                steps.append({"op": "exec", "ctx": cid, "text": text, "via": "execute", "fault": {"k": 2, "kind": fk}})
+                steps.append({"op": "snapshot", "ctx": cid})
+                long_cases.append((first, fk, pad))
     wd = common.workdir(PROP)
     recs, events, _ = common.run_batch(steps, wd, "fault-%d" % si, profile, pre=gen.ORDER_PRE, timeout=1200)
     part = {"evaluations": 0, "classes": set(), "violations": [], "samples": [], "abstained": 0, "inconclusive": [], "counts": {"fault_runs": 0, "followup_steps": 0, "on_worker_thread": 0}}
@@ -65,6 +77,19 @@ def run_shard(desc):
         if len(part["violations"]) < 60:
             part["violations"].append({"sig": sig, "what": what, "replay": {"program": case[2], "fault": list(case[3]), "threaded": case[4], "profile": profile}})
 
+    for first, fk, pad in long_cases:
+        r = recs[first + 1]
+        if r is None:
+            continue
+        part["evaluations"] += 1
+        part["counts"]["long_program_faults"] = part["counts"].get("long_program_faults", 0) + 1
+        res = r.get("res") or {}
+        ids = [e["h"] for e in r.get("log", []) if "h" in e]
+        ok = ids == [1, 1000] and (("err" in res) if fk == "err" else ("vexec-injected-panic" in str(res.get("panic", ""))))
+        if ok and not (recs[first + 2] or {}).get("poisoned"):
+            part["classes"].add("long-program:%s:%d" % (fk, pad))
+        else:
+            part["violations"].append({"sig": ["long-program-fault", fk], "what": "a %d-byte program run through execute() with %s injected at the 2nd handler invocation: result %s, handler log ids %s (expected %s reaching the caller and exactly [1, 1000])" % (pad + 30, "an Err" if fk == "err" else "a panic", json.dumps(res)[:200], ids, "the error" if fk == "err" else "the panic"), "replay": None})
     for case in cases:
         first, t, text, fault, threaded = case
         if threaded:
